@@ -33,6 +33,7 @@ static long fail_k, fail_cnt, fail_errno, fail_from, fired;
 static char fail_op[32], fail_sub[256];
 static long kill_k;
 static int kill_when; /* 0 before 1 after 2 mid */
+static long sig_k, sig_no; /* VERIF_SIGNAL=<k>:<signo>: deliver a signal (graceful stop) at the k-th state-changing call */
 static long now_fixed;
 static int inited;
 static pthread_mutex_t mu = PTHREAD_MUTEX_INITIALIZER;
@@ -72,6 +73,11 @@ static void init(void)
 		char *q;
 		kill_k = strtol(e, &q, 10);
 		if (*q == ':') { ++q; kill_when = !strcmp(q, "after") ? 1 : !strcmp(q, "mid") ? 2 : 0; }
+	}
+	if ((e = getenv("VERIF_SIGNAL")) != 0) {
+		char *q;
+		sig_k = strtol(e, &q, 10);
+		sig_no = (*q == ':') ? strtol(q + 1, 0, 10) : SIGINT;
 	}
 	if ((e = getenv("VERIF_NOW")) != 0) now_fixed = strtol(e, 0, 10);
 	if ((e = getenv("VERIF_COUNT")) != 0) { strncpy(countpath, e, sizeof(countpath) - 1); atexit(fini); }
@@ -125,6 +131,7 @@ static int mutating(const char *path)
 	pthread_mutex_lock(&mu);
 	++seq;
 	if (kill_k && seq == kill_k) act = kill_when;
+	if (sig_k && seq == sig_k) { pthread_mutex_unlock(&mu); logline("SIGNAL", path, 0, 0, sig_no, 0); raise((int)sig_no); pthread_mutex_lock(&mu); }
 	pthread_mutex_unlock(&mu);
 	if (act == 0) { logline("KILL-before", path, 0, 0, 0, 0); raise(SIGKILL); }
 	return act;
